@@ -154,12 +154,24 @@ struct Sink { _p: u8 }
 impl Sink { uninterp spec fn blocks(&self) -> Seq<Seq<Ent>>; }
 #[verifier::external_body]
 struct SetsumAcc { _p: u8 }
+// sst::Setsum: the entries it has been given, in order (its digest is a function of their multiset: unit setsum, C14)
 impl SetsumAcc {
+    uninterp spec fn acc(&self) -> Seq<Ent>;
     #[verifier::external_body]
-    fn put(&mut self, key: &[u8], timestamp: u64, value: &[u8]) { unimplemented!() }
+    fn put(&mut self, key: &[u8], timestamp: u64, value: &[u8])
+        ensures final(self).acc() == old(self).acc().push(Ent { key: key@, ts: timestamp, val: Some(value@) }),
+    { unimplemented!() }
     #[verifier::external_body]
-    fn del(&mut self, key: &[u8], timestamp: u64) { unimplemented!() }
+    fn del(&mut self, key: &[u8], timestamp: u64)
+        ensures final(self).acc() == old(self).acc().push(Ent { key: key@, ts: timestamp, val: None }),
+    { unimplemented!() }
+    #[verifier::external_body]
+    fn digest(&self) -> (r: [u8; 32])
+        ensures r@ == digest_of(self.acc()),
+    { unimplemented!() }
 }
+// the 32-byte digest of the setsum of a sequence of entries (unit setsum: a function of their multiset)
+uninterp spec fn digest_of(s: Seq<Ent>) -> Seq<u8>;
 #[verifier::external_body]
 struct OtherOptions { _p: u8 }
 struct SstOptions { block: BlockBuilderOptions, target_block_size: usize, rest: OtherOptions }
@@ -198,6 +210,35 @@ struct SstBuilder {
     output: Sink,
 }
 
+// smallest / biggest timestamp of a sequence of entries (u64::MAX / 0 while it is empty, as SstBuilder::new sets them)
+spec fn ts_ok(s: Seq<Ent>, sm: u64, bg: u64) -> bool {
+    &&& forall|i: int| 0 <= i < s.len() ==> sm <= (#[trigger] s[i]).ts <= bg
+    &&& s.len() == 0 ==> sm == 0xffff_ffff_ffff_ffff && bg == 0
+    &&& s.len() > 0 ==> (exists|i: int| 0 <= i < s.len() && (#[trigger] s[i]).ts == sm) && (exists|i: int| 0 <= i < s.len() && (#[trigger] s[i]).ts == bg)
+}
+proof fn lemma_ts_push(s: Seq<Ent>, e: Ent, sm: u64, bg: u64)
+    requires ts_ok(s, sm, bg)
+    ensures ts_ok(s.push(e), if sm > e.ts { e.ts } else { sm }, if bg < e.ts { e.ts } else { bg })
+{
+    let t = s.push(e);
+    let sm2 = if sm > e.ts { e.ts } else { sm };
+    let bg2 = if bg < e.ts { e.ts } else { bg };
+    assert(t[s.len() as int] == e);
+    assert forall|i: int| 0 <= i < t.len() implies sm2 <= (#[trigger] t[i]).ts <= bg2 by {
+        if i < s.len() { assert(t[i] == s[i]); }
+    }
+    if s.len() > 0 {
+        let a = choose|i: int| 0 <= i < s.len() && (#[trigger] s[i]).ts == sm;
+        let b = choose|i: int| 0 <= i < s.len() && (#[trigger] s[i]).ts == bg;
+        assert(t[a] == s[a] && t[b] == s[b]);
+        if sm > e.ts { assert(t[s.len() as int].ts == sm2); } else { assert(t[a].ts == sm2); }
+        if bg < e.ts { assert(t[s.len() as int].ts == bg2); } else { assert(t[b].ts == bg2); }
+    } else {
+        assert(t[0].ts == sm2);
+        assert(t[0].ts == bg2);
+    }
+}
+
 spec fn keys_of(s: Seq<Ent>) -> Seq<Seq<u8>> { Seq::new(s.len(), |i: int| s[i].key) }
 
 impl SstBuilder {
@@ -224,9 +265,12 @@ impl SstBuilder {
     // the hash of every accepted key has been queued for the bloom filter (seal inserts every queued hash; unit sst_sbbf:
     // an inserted hash is always found) -- the premise "the filter never hides a key of the table" of Sst::load
     spec fn filter_ok(&self) -> bool { forall|i: int| 0 <= i < self.stream().len() ==> self.filter@.contains(hash_of(#[trigger] self.stream()[i].key)) }
+    // what seal writes into the final block describes exactly the accepted entries: the setsum has been given each of
+    // them once, smallest/biggest timestamp are the minimum and maximum over them (u64::MAX / 0 while there is none)
+    spec fn meta_ok(&self) -> bool { self.setsum.acc() == self.stream() && ts_ok(self.stream(), self.smallest_timestamp, self.biggest_timestamp) }
     // the invariant between calls
     spec fn swf(&self) -> bool {
-        &&& self.flushed_ok() && self.last_ok() && self.sizes_ok() && sorted(self.stream()) && self.filter_ok()
+        &&& self.flushed_ok() && self.last_ok() && self.sizes_ok() && sorted(self.stream()) && self.filter_ok() && self.meta_ok()
         &&& self.block_builder is Some ==> self.block_builder->Some_0.bwf() && self.cur().len() >= 1
         &&& self.block_builder is None ==> self.done().len() == 0
         &&& self.done().len() > 0 ==> forall|j: int| 0 <= j < self.cur().len() ==> lex_le(self.divs().last(), #[trigger] self.cur()[j].key)
@@ -245,6 +289,9 @@ impl SstBuilder {
         final(self).last_key@ == key@, final(self).last_timestamp == timestamp,
         final(self).block_builder == old(self).block_builder, final(self).index_block == old(self).index_block, final(self).output == old(self).output,
         final(self).bytes_written == old(self).bytes_written, final(self).options == old(self).options, final(self).filter == old(self).filter,
+        final(self).setsum == old(self).setsum,
+        final(self).smallest_timestamp == (if old(self).smallest_timestamp > timestamp { timestamp } else { old(self).smallest_timestamp }),
+        final(self).biggest_timestamp == (if old(self).biggest_timestamp < timestamp { timestamp } else { old(self).biggest_timestamp }),
 //@ >>
 //@ end
 }
@@ -309,6 +356,7 @@ impl SstBuilder {
         final(self).output == old(self).output, final(self).index_block == old(self).index_block, final(self).last_key == old(self).last_key,
         final(self).last_timestamp == old(self).last_timestamp, final(self).bytes_written == old(self).bytes_written, final(self).options == old(self).options,
         final(self).filter == old(self).filter,
+        final(self).setsum == old(self).setsum && final(self).smallest_timestamp == old(self).smallest_timestamp && final(self).biggest_timestamp == old(self).biggest_timestamp,
         r is Err ==> final(self).block_builder == old(self).block_builder,
 //@ >>
 //@ end
@@ -331,7 +379,8 @@ impl SstBuilder {
             && final(self).flushed_ok() && final(self).stream() == old(self).stream()
             && final(self).last_key == old(self).last_key && final(self).last_timestamp == old(self).last_timestamp
             && lex_le(final(self).divs().last(), key@)
-            && final(self).bytes_written <= 0x8100_0000 && final(self).options == old(self).options && final(self).filter == old(self).filter,
+            && final(self).bytes_written <= 0x8100_0000 && final(self).options == old(self).options && final(self).filter == old(self).filter
+            && final(self).setsum == old(self).setsum && final(self).smallest_timestamp == old(self).smallest_timestamp && final(self).biggest_timestamp == old(self).biggest_timestamp,
 //@ >>
 //@ bodystart <<
         let ghost o = *self;
@@ -400,6 +449,7 @@ impl SstBuilder {
         r is Ok ==> final(self).flushed_ok(),
         r is Ok ==> final(self).stream() == old(self).stream(),
         r is Ok ==> final(self).sizes_ok() && final(self).filter == old(self).filter,
+        r is Ok ==> final(self).setsum == old(self).setsum && final(self).smallest_timestamp == old(self).smallest_timestamp && final(self).biggest_timestamp == old(self).biggest_timestamp,
         r is Ok ==> final(self).last_key == old(self).last_key && final(self).last_timestamp == old(self).last_timestamp,
         r is Ok && final(self).done().len() > 0 ==> lex_le(final(self).divs().last(), key@),
         r is Ok && final(self).done().len() > 0 ==> forall|j: int| 0 <= j < final(self).cur().len() ==> lex_le(final(self).divs().last(), #[trigger] final(self).cur()[j].key),
@@ -461,6 +511,7 @@ impl SstBuilder {
             let e = Ent { key: key@, ts: timestamp, val: Some(value@) };
             assert(self.stream() =~= o.stream().push(e));
             lemma_sorted_push(o.stream(), e);
+            lemma_ts_push(o.stream(), e, o.smallest_timestamp, o.biggest_timestamp);
         }
 //@ >>
 //@ end
@@ -504,10 +555,35 @@ impl SstBuilder {
             let e = Ent { key: key@, ts: timestamp, val: None };
             assert(self.stream() =~= o.stream().push(e));
             lemma_sorted_push(o.stream(), e);
+            lemma_ts_push(o.stream(), e, o.smallest_timestamp, o.biggest_timestamp);
         }
 //@ >>
 //@ end
 }
+
+//@ extract sst/src/lib.rs | struct FinalBlock
+//@ end
+// the part of SstBuilder::seal that fills in the final block (the metadata Sst::metadata reports): setsum of exactly the
+// accepted entries, their smallest and biggest timestamp (0, 0 for an empty table), the offset of the final block
+//@ extract sst/src/lib.rs | impl Builder for SstBuilder :: fn seal
+//@ region `if builder.smallest_timestamp` .. `let final_block = FinalBlock {`
+//@ region-sig <<
+fn seal_final(builder: &mut SstBuilder, index_block: BlockMetadata, filter_block: BlockMetadata) -> (r: FinalBlock)
+//@ >>
+//@ region-tail <<
+    ;
+    final_block
+//@ >>
+//@ pre <<
+        old(builder).meta_ok(),
+//@ >>
+//@ post <<
+        r.setsum@ == digest_of(old(builder).stream()),
+        old(builder).stream().len() == 0 ==> r.smallest_timestamp == 0 && r.biggest_timestamp == 0,
+        old(builder).stream().len() > 0 ==> ts_ok(old(builder).stream(), r.smallest_timestamp, r.biggest_timestamp),
+        r.final_block_offset == old(builder).bytes_written as u64, r.index_block == index_block, r.filter_block == filter_block,
+//@ >>
+//@ end
 
 // what SstBuilder::seal's last flush leaves: the table shape the cursor proofs rely on, holding exactly the accepted entries
 proof fn lemma_sealed_table(b: SstBuilder)
@@ -520,6 +596,6 @@ proof fn lemma_sealed_table(b: SstBuilder)
 
 //@ contract-lemma lemma_sealed_table
 //@ contract-lemma lemma_table
-//@ min-verified 5
+//@ min-verified 6
 } // verus!
 fn main() {}
